@@ -30,3 +30,9 @@ def run(ctx):
     ctx.guarded(r, S_.r_renaming)
     r = ctx.rule("R8", "the NaN-boxed pixel: a distance is inside exactly under `v < 0.0` (a NaN of either sign is outside), a fill by its own flag; writer and reader agree on the bit fields and the key", 6)
     ctx.guarded(r, R.r_pixel_boxing)
+    # this property quantifies over every shape and both backends, so it needs the evaluators it consults to be right
+    ctx.include('C03', 'tiles are skipped on interval evidence', skip=('R6',))
+    ctx.include('C04', 'tiles are rendered with simplified tapes', skip=())
+    ctx.include('C20', "the trace a tile hands down must be the evaluation's own record", skip=())
+    ctx.include('C01', 'pixels are evaluated by the tape evaluators', skip=())
+    ctx.include('C02', 'pixels are evaluated by the native evaluators', skip=())
